@@ -52,22 +52,35 @@ def programs(ctx):
                             p.make(1, 'A', a, au, ra)
                             p.quantize(1, 2, None, 3)
                         progs.append(p.d())
-    # rejections: quantum of another type, type without reference unit, plain number
+    # quanta that reach the amount's unit as a power of ten carrying trailing zeros (0.2 ha = 1.0 a, 0.02 ha = 0.10 a,
+    # 0.1 ka = 1.0 a, 10 ha = 50 a): the quantum is its value, however many digits it is written with
+    for (q, qu) in ((F(1, 5), 'ha'), (F(1, 50), 'ha'), (F(1, 10), 'ka'), (F(2), 'ha'), (F(1, 100), 'ka'), (F(20), 'ha')):
+        for ra in ('dec', 'frac'):
+            p = Prog('c13t%d' % k)
+            k += 1
+            p.make(2, 'A', q, qu, 'dec')
+            for a in amounts[::2] + [F(n, 400) for n in range(-60, 61, 7)]:
+                p.make(1, 'A', a, 'a', ra)
+                for m in (MODES if not quick else MODES[k % 2::2]):
+                    p.quantize(1, 2, m, 3)
+            progs.append(p.d())
+    # rejections: quantum of another type, type without reference unit, plain number - whatever the amount (zero too)
     p = Prog('c13rej')
-    p.make(1, 'A', F(7, 3), 'ka')
-    p.make(2, 'B', F(1, 4), 'b')
-    p.make(3, 'A2', F(1, 4), 'a2')
-    p.num(4, F(1, 4))
-    p.unit(5, 'a')
-    for y in (2, 3, 4, 5):
-        p.quantize(1, y, None, 6)
-        p.quantize(1, y, 'ROUND_UP', 6)
-    for (t, u1, u2) in (('N', 'p', 'q'), ('N', 'p', 'p'), ('T', 'tc', 'tf'), ('T', 'tc', 'tc'),
-                        ('Money', 'Z2', 'Z2'), ('Money', 'Z2', 'Z3')):
-        p.make(1, t, F(7, 3), u1)
-        p.make(2, t, F(1, 4), u2)
-        p.quantize(1, 2, None, 3)
-        p.quantize(1, 2, 'ROUND_FLOOR', 3)
+    for a in (F(7, 3), F(0), F(-1, 2)):
+        p.make(1, 'A', a, 'ka')
+        p.make(2, 'B', F(1, 4), 'b')
+        p.make(3, 'A2', F(1, 4), 'a2')
+        p.num(4, F(1, 4))
+        p.unit(5, 'a')
+        for y in (2, 3, 4, 5):
+            p.quantize(1, y, None, 6)
+            p.quantize(1, y, 'ROUND_UP', 6)
+        for (t, u1, u2) in (('N', 'p', 'q'), ('N', 'p', 'p'), ('T', 'tc', 'tf'), ('T', 'tc', 'tc'),
+                            ('Money', 'Z2', 'Z2'), ('Money', 'Z2', 'Z3')):
+            p.make(1, t, a, u1)
+            p.make(2, t, F(1, 4), u2)
+            p.quantize(1, 2, None, 3)
+            p.quantize(1, 2, 'ROUND_FLOOR', 3)
     progs.append(p.d())
     # quantized types: the result is constructed like any other instance
     for dm in MODES:
@@ -105,6 +118,7 @@ def programs(ctx):
             p.make(1, 'A', a, au, rnd.choice(['dec', 'frac']))
             p.make(2, 'A', q, qu, rnd.choice(['dec', 'frac']))
             p.quantize(1, 2, rnd.choice(MODES + [None]), 3)
+            p.round(1, rnd.choice([-1, 0, 1, 2]), 3)          # under whatever default mode is configured
         progs.append(p.d())
     return progs
 
